@@ -123,6 +123,11 @@ func checkReduce(u *vk.Unit, c reduceCase) *vk.Finding {
 		if c.Differ && want == "reduced" {
 			return vk.F("reduce-merged-different-models", "default responses whose schemas differ in one member were reduced to one error type (convenient errors forced=%v): %s", forced, reduceDoc(base))
 		}
+		if strings.Contains(got, "anonymous type name conflict") && !strings.Contains(want, "anonymous type name conflict") {
+			// two operations whose (not reduced) default responses wrap ONE component: the recorded finding
+			// "the wrapper is named after the content type"; reference versus in-place is exactly its shape
+			return vk.F("response-wrapper-named-after-content-type", "two default responses that refer to one component: %s; document: %s", trim(got, 200), reduceDoc(c))
+		}
 		if got != want {
 			return vk.F("reduce-depends-on-ref-spelling", "convenient errors forced=%v: with every default response schema written in place the outcome is %q, with the spellings %v (0 in place, 1 $ref ErrA, 2 $ref ErrB with the same content, 3 response component) it is %q; document: %s",
 				forced, want, c.Spellings, trim(got, 200), reduceDoc(c))
